@@ -118,3 +118,43 @@ def run(ctx):
         ctx.instance("C18.2", "ensure_allocated caller " + x)
         ctx.oblige(x.startswith(ENSURE_ALLOWED), "C18.2", "ensure_allocated-caller:" + x,
                    "force-allocation of a caller-chosen page id outside the pager / WAL page replay", F.bodies[x].file)
+    complete_walk_rule(ctx, "C18.3")
+
+
+def complete_walk_rule(ctx, rid):
+    """shared by C18.3 and C28.6: the page-reachability walk of a B-tree follows every pointer an internal page stores"""
+    F = ctx.facts
+    ctx.rule(rid, "the B-tree reachability walk (what vacuum keeps) consumes every pointer accessor of an index page, the per-cell one inside a loop, and queues each result")
+    PAGE = "nervusdb_storage::index::btree::Page"
+    WALK = "nervusdb_storage::index::btree::BTree::mark_reachable_pages"
+    wb = ctx.body(WALK)
+    # pointer accessors = `&self` methods of Page whose return type mentions PageId; primitive = does not call another accessor
+    acc = {}
+    for i, b in F.bodies.items():
+        if not i.startswith(PAGE + "::") or b.root or "::tests::" in i:
+            continue
+        if "PageId" in b.local_ty(0) and b.argc >= 1 and b.local_ty(1).startswith("&") and not b.local_ty(1).startswith("&mut"):
+            acc[i] = b
+    prim = sorted(i for i, b in acc.items() if not any(c.name in acc and c.name != i for c in b.calls()))
+    ctx.floor(rid, "primitive pointer accessors of an index page", len(prim), 3)
+    in_cycle = lambda bb: any(bb in wb.reachable([s]) for s in wb.succs(bb))
+    pushes = [c for c in wb.calls() if c.name.endswith("::push_back")]
+    for a in prim:
+        calls = [c for c in wb.calls() if c.name == a]
+        per_cell = F.bodies[a].argc >= 2  # takes a cell index
+        queued = False
+        for c in calls:
+            # some push_back reachable from the call (before the walk loop re-enters the page read)
+            region = wb.reachable([c.bb])
+            if any(p.bb in region for p in pushes):
+                queued = True
+        # per-cell accessor must sit in an inner loop (a cycle that does not pass through the page read)
+        looped = True
+        if per_cell:
+            reads = [c.bb for c in wb.calls() if c.name.endswith("Pager::read_page")]
+            looped = any(c.bb in wb.reachable(wb.succs(c.bb), avoid=reads) for c in calls)
+        ok = bool(calls) and queued and looped
+        ctx.instance(rid, "%s: called %d time(s) by the walk, result queued=%s%s" % (a.split("::")[-1], len(calls), queued, (", once per cell=%s" % looped) if per_cell else ""))
+        ctx.oblige(ok, rid, "walk-skips:%s" % a.split("::")[-1],
+                   "the reachability walk does not follow `%s`: pages reachable only through that pointer are dropped by vacuum while the tree "
+                   "still references them, and the allocator hands them to the next structure that grows" % a.split("::")[-1], wb.file)
